@@ -229,6 +229,23 @@ Fixpoint first_bad (bs : N) (bad : list unit_) (items : list (item B3)) (acc : b
       if existsb (unit_eqb u) bad then (Some u, acc) else first_bad bs bad rest (acc ++ item_bytes B3 i)
   end.
 
+(* a provider that holds only the first cut bytes of the blob (complete outboard): everything up to
+   the first leaf that reaches behind the cut is sent as for the complete blob, then UnexpectedEof *)
+Fixpoint upto_cut (validating : bool) (bs size cut : N) (items : list (item B3)) (acc : bytes) : bool * bytes :=
+  match items with
+  | [] => (true, acc)
+  | i :: rest =>
+      let missing :=
+        if validating then
+          (* the validating encoders read the whole chunk group before sending anything of it *)
+          match item_unit bs i with
+          | UG g => cut <? N.min ((g + 2 ^ bs) * 1024) size
+          | UP _ => false
+          end
+        else match i with ILeaf off d => cut <? off + blen B3 d | _ => false end in
+      if missing then (false, acc) else upto_cut validating bs size cut rest (acc ++ item_bytes B3 i)
+  end.
+
 Definition holds_encode (a o : list N) : bool :=
   let data0 := blob a in
   let size := blen B3 data0 in
@@ -241,6 +258,11 @@ Definition holds_encode (a o : list N) : bool :=
   let bad := cor_units ncor (skipn 7 a) bs size k size (outboard_size (mkTree size bs)) in
   match o with
   | [rc; p; len; d; frame] =>
+      if (arg a 6 =? 1) && (arg a 7 =? 4) then
+        let '(complete, out) := upto_cut (existsb (N.eqb encoder) [0; 1; 4]) bs size (arg a 8) hon [] in
+        (len =? blen B3 out) && (d =? dg out) &&
+        (if complete then (rc =? 0) && (frame =? 1) else (rc =? 6) && (p =? kcode KUnexpectedEof))
+      else
       (frame =? 1) &&
       (if existsb (N.eqb encoder) [0; 1; 4] then
          match first_bad bs bad hon [] with
